@@ -109,6 +109,9 @@ var bigLens = []int{32766, 32767, 32768, 40000, 65534, 65535}
 var overLens = []int{65536, 65537, 70000}
 
 // fills one message; returns whether every value is within the wire limits
+// searchMs >= 0 pins every duration field to that many milliseconds (failing-input search sweeps it)
+var searchMs int64 = -1
+
 func genMessage(r *rng, t reflect.Type, big bool) (reflect.Value, bool) {
 	v := reflect.New(t).Elem()
 	var fs []reflect.Value
@@ -123,8 +126,14 @@ func genMessage(r *rng, t reflect.Type, big bool) (reflect.Value, bool) {
 		switch {
 		case fv.Type() == durType:
 			ms := []int64{0, 1, 999, 1000, 60000, 3600000, math.MaxInt32, math.MaxInt32 + 1, math.MaxUint32}[r.intn(9)]
+			if r.chance(1, 3) {
+				ms = int64(r.intn(200000)) // non-round millisecond counts
+			}
+			if searchMs >= 0 {
+				ms = searchMs
+			}
 			ns := ms * 1000000
-			if r.chance(1, 10) {
+			if searchMs < 0 && r.chance(1, 10) {
 				ns += int64(1 + r.intn(999999)) // sub-millisecond part: lost by design, outside the limits
 				within = false
 			}
@@ -238,11 +247,33 @@ func runCodec(a map[string]string) {
 	}
 	root := newRng(seed)
 	var cases []codecCase
+	// search=1: failing-input search (direct oracle only): many more cases per type, strings around
+	// the prefix limits in every 8th case, every millisecond count 0..130000 for duration fields;
+	// only failing cases are kept
+	search := argInt(a, "search", 0) == 1
 	for ti, t := range msgTypes {
 		r := root.fork(uint64(ti))
-		for i := 0; i < n; i++ {
+		hasDur := false
+		for fi := 0; fi < t.NumField(); fi++ {
+			if t.Field(fi).Type == durType {
+				hasDur = true
+			}
+		}
+		total := n
+		if search && hasDur {
+			total = n + 130001
+		}
+		kept := 0
+		for i := 0; i < total; i++ {
 			// big cases rotate over the message types with the seed: nbig types get one each
 			isBig := i == 0 && (ti+int(seed))%len(msgTypes) < nbig
+			searchMs = -1
+			if search {
+				isBig = i%8 == 0 && i < n
+				if i >= n {
+					searchMs = int64(i - n)
+				}
+			}
 			v, within := genMessage(r, t, isBig)
 			c := codecCase{Type: t.Name(), Within: within}
 			c.Code = int(v.Interface().(message.MessageTypeAware).GetTypeCode())
@@ -290,6 +321,10 @@ func runCodec(a map[string]string) {
 			if c.Panic != "" && c.Oracle == "" {
 				c.Oracle = "panic: " + c.Panic
 			}
+			if search && (c.Oracle == "" || kept >= 3) {
+				continue
+			}
+			kept++
 			cases = append(cases, c)
 		}
 	}
